@@ -54,6 +54,11 @@ pub struct ShutCase {
     /// beyond it are evicted at the write between the phases
     #[serde(default)]
     pub lru_cap: Option<u8>,
+    /// after phase 1 one more thread requests every key (same revision): phase 2 then validates
+    /// existing memos concurrently instead of computing most things for the first time, and every
+    /// lru key beyond the capacity is evicted at the write
+    #[serde(default)]
+    pub sweep: bool,
 }
 
 #[derive(Clone, Copy, Debug, PartialEq, Eq)]
@@ -205,7 +210,8 @@ pub fn gen_shut_case(tape: &[u32], which: Which, iterations: u32) -> ShutCase {
         (None, vec![])
     };
     let lru_cap = if prog.nodes.iter().any(|n| n.kind == Kind::Lru) { lru_cap } else { None };
-    ShutCase { prog, phase1, write, phase2, sched, sched_seed, iterations, lru_cap }
+    let sweep = which == Which::Readers && write.is_some() && t.chance(1, 2);
+    ShutCase { prog, phase1, write, phase2, sched, sched_seed, iterations, lru_cap, sweep }
 }
 
 #[salsa::input]
@@ -526,7 +532,11 @@ pub fn run_shut_case(which: Which, case: &ShutCase) -> SeqOutcome {
         let mut ids = IdBook::default();
         let mut v = vec![];
         salsa::verif_hooks::start();
-        let r1 = run_phase(&world, &case.phase1);
+        let mut r1 = run_phase(&world, &case.phase1);
+        if case.sweep {
+            let all: Vec<TOp> = case.prog.nodes.iter().enumerate().flat_map(|(n, node)| (0..node.nargs).map(move |a| TOp::Get { node: n as u8, arg: a })).collect();
+            r1.extend(run_phase(&world, &[all]));
+        }
         let log1 = world.take_log();
         check_phase(&PhaseCheck { which, case, model: &model, phase: 1 }, &r1, &log1, &sh2, &mut ids, &mut v);
         // listed finding cyc-kf1: a cycle finalized in phase 1 while the dependency list of one
@@ -661,6 +671,9 @@ pub fn run_shut_case(which: Which, case: &ShutCase) -> SeqOutcome {
     }
     if case.write.is_some() {
         outc.labels.push("two-phases");
+    }
+    if case.sweep {
+        outc.labels.push("phase-2-validates-existing-memos");
     }
     if case.lru_cap.is_some() {
         outc.labels.push(if case.write.is_some() { "lru-evicting-write-between-phases" } else { "lru-program" });
